@@ -116,13 +116,17 @@ def invoke(args):
     return res.exit_code, res.output, res.exception
 
 
-def make_inputs(rng, d: Path, packed, nf, nfiles):
+def make_inputs(rng, d: Path, packed, nf, nfiles, prefix_names=False):
+    import suite_mr
     protos = None
     files = []
     for i in range(nfiles):
         rows, protos = hist.gen_fps(rng, rng.randint(6, 25), nf, protos, rng.choice([0.05, 0.15]))
         A = np.array(rows, dtype=np.uint8)
-        np.save(d / f"part-{i}.npy", np.packbits(A, axis=1) if packed else A)
+        # the command takes the files of a directory in sorted-NAME order; with one stem a prefix of the others
+        # that order differs from the order by stem
+        nm = suite_mr.PREFIX_NAMES[i] if prefix_names else f"part-{i}.npy"
+        np.save(d / nm, np.packbits(A, axis=1) if packed else A)
         files.append(rows)
     return files
 
@@ -271,12 +275,13 @@ def suite_cli(seed, tier):
     cases = 0
     terms, meta = [], []
     stats = {"run": 0, "multiround": 0, "refused": 0, "overwritten": 0, "monitor": 0}
-    for o in covering_run_opts(rng, n_run):
+    for i_run, o in enumerate(covering_run_opts(rng, n_run)):
         with tempfile.TemporaryDirectory(prefix="verif_cli_") as tmp:
             tmp = Path(tmp)
             ind = tmp / "in"
             ind.mkdir()
-            make_inputs(rng, ind, o["packed"], o["nf"], 1 if o["single_file"] else rng.randint(2, 4))
+            make_inputs(rng, ind, o["packed"], o["nf"], 1 if o["single_file"] else rng.randint(2, 4),
+                        prefix_names=(i_run % 3 == 1))
             paths = sorted(ind.glob("*.npy"))
             in_arg = paths[0] if o["single_file"] else ind
             use = [paths[0]] if o["single_file"] else paths
@@ -326,6 +331,8 @@ def suite_cli(seed, tier):
         case = suite_mr.gen_mr_case(rng)
         if case.get("names") == "samename":
             case["names"] = "padded"        # the command takes ONE directory of *.npy files
+        if k_mr % 3 == 2 and len(case["files"]) <= len(suite_mr.PREFIX_NAMES):
+            case["names"] = "prefix"
         c = case["cfg"]
         if k_mr == 0:
             # big clusters: round-1 writes two dtype groups per file, so the next round sees
